@@ -31,7 +31,10 @@ def oracle(p):
                 and op[1][0][0][4][0] == 'Decoded' and not any(o[0] == 'Receive' and q[0][0] != 0 for o, q in zip(p['ops'][:i], p['parts'][:i])):
             rf = op[1][0][0]
             known = any(s[0] == rf[1] for s in prev[8])
-            limit = prev[7][2]
+            # the limit in force is the acknowledged local MAX_HEADER_LIST_SIZE (read from the Settings object, never from the decoder
+            # that is being judged); 65536 (hpack's default) when the setting was never sent
+            acked = {k: (q[0][0] if q and q[0] else None) for k, q in prev[11]}.get(6)
+            limit = acked if acked is not None else 65536
             if hl_size(rf[4][1]) > limit and (known or rf[1] != 0):
                 if _conn.err_name(parts) not in ('DenialOfServiceError', 'TooManyStreamsError') or (_conn.err_name(parts) == 'DenialOfServiceError' and parts[0][2] != 11):
                     bad.append({'rule': 'a header list above the acknowledged MAX_HEADER_LIST_SIZE was not refused with ENHANCE_YOUR_CALM', 'step': i,
@@ -60,6 +63,17 @@ def scenarios(run):
             sid = 13 if not client else 11
             out.append((cfg, list(t2.zoo(client)) + [('UpdateSettings', [(6, 200)]), RX(('Settings', True, [])), ('Drain',),
                                                       RX(('Headers', sid, False, None, ('Decoded', hs2)))]))
+        # the same boundary when the acknowledgement that carries MAX_HEADER_LIST_SIZE also changes other settings (one frame or
+        # several in flight), and when the cap is raised again afterwards
+        for total in (200, 201):
+            hs = t2.REQ if not client else t2.RESP
+            hs2 = list(hs) + [(b'x', b'v' * max(total - hl_size(hs) - 33, 0), False)]
+            sid = 13 if not client else 11
+            ACK = RX(('Settings', True, []))
+            for ups in ([[(4, 1000), (6, 200)]], [[(6, 200), (4, 70000)]], [[(5, 20000), (6, 200), (1, 0)]], [[(4, 100)], [(6, 200)]],
+                        [[(6, 100000)], [(6, 200), (3, 50)]]):
+                out.append((cfg, list(t2.zoo(client)) + [('UpdateSettings', u) for u in ups] + [ACK] * len(ups) +
+                            [('Drain',), RX(('Headers', sid, False, None, ('Decoded', hs2)))]))
     return out
 
 
